@@ -21,6 +21,10 @@ pub struct StructCase {
     pub crlf: bool,
     #[serde(default)]
     pub base_accepted: bool,
+    /// delete: where the deleted occurrence sat: "top" (outside any repeating group), or
+    /// first|later (occurrence of its group) - opener|inner (first field of that occurrence or not)
+    #[serde(default)]
+    pub ctx: String,
 }
 
 impl StructCase {
@@ -51,6 +55,14 @@ pub fn generate(mt: &str, src: &mut Src) -> StructCase {
             .collect();
         let i = mand[src.below(mand.len())];
         let tag = toks[i].tag.clone();
+        let path = &base.fields[i].path;
+        let ctx = if path.is_empty() {
+            "top".to_string()
+        } else {
+            let occ = if *path.last().unwrap() == 0 { "first" } else { "later" };
+            let opener = i == 0 || base.fields[i - 1].path != *path;
+            format!("{occ}-{}", if opener { "opener" } else { "inner" })
+        };
         toks.remove(i);
         StructCase {
             mt: mt.to_string(),
@@ -60,6 +72,7 @@ pub fn generate(mt: &str, src: &mut Src) -> StructCase {
             content: String::new(),
             crlf,
             base_accepted,
+            ctx,
         }
     } else {
         let n = toks.len();
@@ -84,6 +97,7 @@ pub fn generate(mt: &str, src: &mut Src) -> StructCase {
                     content: b,
                     crlf,
                     base_accepted,
+                    ctx: String::new(),
                 }
             }
             None => StructCase {
@@ -94,6 +108,7 @@ pub fn generate(mt: &str, src: &mut Src) -> StructCase {
                 content: String::new(),
                 crlf,
                 base_accepted,
+                ctx: String::new(),
             },
         }
     }
@@ -163,7 +178,7 @@ pub fn oracle(c: &StructCase, obs: &mut Obs) -> Vec<Violation> {
         obs.nontrivial_str(&format!("{}|{}", c.kind, text));
         match res {
             Ok(_) => out.push(viol(
-                format!("C09|MT{mt}|deleted:{}|accepted", c.tag),
+                format!("C09|MT{mt}|deleted:{}@{}|accepted", c.tag, c.ctx),
                 format!("message without mandatory {} accepted:\n{}", c.tag, text),
             )),
             Err(LibErr::Parse(e)) => {
@@ -185,7 +200,7 @@ pub fn oracle(c: &StructCase, obs: &mut Obs) -> Vec<Violation> {
                         .map(|t| format!("wrong-tag:{t}"))
                         .unwrap_or("no-tag".to_string());
                     out.push(viol(
-                        format!("C09|MT{mt}|deleted:{}|{}", c.tag, what),
+                        format!("C09|MT{mt}|deleted:{}@{}|{}", c.tag, c.ctx, what),
                         format!(
                             "error does not identify the missing {}: {}\n{}",
                             c.tag, e, text
@@ -193,7 +208,7 @@ pub fn oracle(c: &StructCase, obs: &mut Obs) -> Vec<Violation> {
                     ));
                 } else if !(names_token(&r, mt) || names_token(&r, &format!("MT{mt}"))) {
                     out.push(viol(
-                        format!("C09|MT{mt}|deleted:{}|no-type", c.tag),
+                        format!("C09|MT{mt}|deleted:{}@{}|no-type", c.tag, c.ctx),
                         format!("error does not carry the message type: {}", e),
                     ));
                 }
